@@ -14,7 +14,9 @@ interleaved is the sequential session handler (`Task.body_seq` below).
 
 * `atomic_send_prefix_*`  – in `send_msg` the state checks (from the last `on_state_change` on), the number
   allocation, the journal write and the transport write are ONE segment: no other task can run between them.
-* `concurrent_senders_consecutive_partial` – for every schedule in which no `_process_resend` has rewound
+* `concurrent_senders_consecutive_partial` – sender tasks send new messages, or messages of any kind (also
+  PossDupFlag=Y / SequenceReset with their own number) whose text is outside latin-1 (`Task.wf`); for every
+  schedule in which no `_process_resend` has rewound
   the outbound counter (`everRewound = false`, a decidable predicate of the schedule prefix): the new-message
   frames carry strictly increasing numbers in wire order, none below the initial counter; nothing but new
   messages is written; every frame is in the journal under its number; no DuplicateSeqNoError is swallowed
@@ -175,6 +177,12 @@ example : J Witness.c0 ∧ (∀ t ∈ Witness.tsPlain, t.wf = true) ∧
     (run Witness.all Witness.c0 Witness.tsPlain false Witness.schedPlain).log.map (·.1) = [0, 3, 1, 4] :=
   ⟨Witness.J_c0, by decide, by decide +kernel, by decide +kernel, by decide +kernel, by decide +kernel,
     by decide +kernel⟩
+
+/-- non-vacuity of the widened sender class: a PossDupFlag=Y message with its own number and text outside
+latin-1 is not a new message, yet a well-formed sender task (it is refused) -/
+example : (Task.send Witness.env1 (Msg.mk' "D" [(tPossDupFlag, "Y"), (tMsgSeqNum, "3"), (tText, "\u20ac")])).wf = true ∧
+    isNew (Msg.mk' "D" [(tPossDupFlag, "Y"), (tMsgSeqNum, "3"), (tText, "\u20ac")]) = false := by
+  decide +kernel
 
 /-- … and when no send found the transport gone, the numbers are consecutive from the initial counter and
 the counter (hence the stored one) is the highest number sent plus one -/
